@@ -4,6 +4,7 @@ package main
 
 import (
 	"fmt"
+	"os"
 	"go/ast"
 	"go/token"
 	"go/types"
@@ -106,6 +107,7 @@ type Exec struct {
 	recDone     map[*Term]bool
 	noOblige    int
 	modAllCount int
+	recDry      int
 	borrowed    map[*Term]string // array ids / refs owned by the caller
 }
 
@@ -560,7 +562,30 @@ func (ex *Exec) recordName(fr *Frame, name string, obj types.Object, b *ssa.Basi
 }
 
 // lookupName resolves a source-level variable name at block b.
+// spilledParam: go/ssa copies an assigned-to / address-taken parameter into a local cell at entry;
+// the variable's current value lives there.
+func spilledParam(fr *Frame, name string) (ssa.Value, bool) {
+	if len(fr.fn.Blocks) == 0 {
+		return nil, false
+	}
+	for _, ins := range fr.fn.Blocks[0].Instrs {
+		if st, ok := ins.(*ssa.Store); ok {
+			if p, isP := st.Val.(*ssa.Parameter); isP && p.Name() == name {
+				if a, isA := st.Addr.(*ssa.Alloc); isA && a.Comment == name {
+					return a, true
+				}
+			}
+		}
+	}
+	return nil, false
+}
+
 func (ex *Exec) lookupName(fr *Frame, name string, b *ssa.BasicBlock, st *State) (Val, bool) {
+	if cell, ok := spilledParam(fr, name); ok {
+		if cv, has := fr.regs[cell]; has {
+			return st.load(ex.locOf(cv)), true
+		}
+	}
 	for i := len(fr.names) - 1; i >= 0; i-- {
 		r := fr.names[i]
 		if r.name != name {
@@ -725,7 +750,11 @@ func (ex *Exec) execLoop(fr *Frame, loops map[*ssa.BasicBlock]*loopInfo, li *loo
 		ex.assume(st, autoInv(st))
 		for _, inv := range lc.Invs {
 			env := ex.envAt(fr, st, h)
-			ex.assume(st, ex.evalBool(env, inv.E))
+			t := ex.evalBool(env, inv.E)
+			if os.Getenv("GOVC_DEBUG") != "" {
+				fmt.Printf("  [assume inv %s.%s pass %d] %s\n", lname, inv.Label, pass, truncate(t.String(), 200))
+			}
+			ex.assume(st, t)
 		}
 		// implicit frame invariants for wholly havoced reference-indexed state: objects that existed
 		// when the loop was entered are unchanged (assumed at the head, proved at every latch)
